@@ -73,6 +73,10 @@ def install(eng):
         return acc
     def norm(a):
         n2 = dot(a, a)
+        hook = getattr(eng, 'sqrt_hook', None)
+        if hook is not None:
+            r = hook(n2.v)
+            if r is not None: return F(r, n2.poison())
         return F(T.sqrt(n2.v), n2.poison())
     def rot_axis(axis, s, c):
         z, o = fc(0), fc(1)
@@ -95,7 +99,7 @@ def install(eng):
             f = f.replace(f'na::Matrix<f64, na::Const<{r}>, na::Const<{c}>, na::ArrayStorage<f64, {r}, {c}>>', n)
         f = f.replace('na::Isometry<f64, na::Unit<na::Quaternion<f64>>, 3>', 'Iso3').replace('na::Isometry::<f64, na::Unit<na::Quaternion<f64>>, 3>', 'Iso3')
         f = f.replace('na::Unit<na::Quaternion<f64>>', 'UQ').replace('na::Translation<f64, 3>', 'Tr3').replace('na::Translation::<f64, 3>', 'Tr3')
-        f = f.replace('na::Rotation<f64, 3>', 'Rot3').replace('na::Rotation::<f64, 3>', 'Rot3').replace('na::Unit<V3>', 'UV3').replace('na::Point<f64, 3>', 'P3')
+        f = f.replace('na::Rotation<f64, 3>', 'Rot3').replace('na::Rotation::<f64, 3>', 'Rot3').replace('na::Unit<V3>', 'UV3').replace('na::Point<f64, 3>', 'P3').replace('na::OPoint<f64, na::Const<3>>', 'P3')
         return f
     eng.na_norm = norm_name
     def D(st, x): return eng.deref(st, x)
@@ -134,6 +138,17 @@ def install(eng):
             axis = [i for i in range(3) if is1(ax.d[i])][0]
             sv, cv = T.sincos(a[1].v); p = a[1].poison()
             return one(st, rot_axis(axis, F(sv, p), F(cv, p)))
+        if re.search(r'^<&?P3 as std::ops::Sub(<&?P3>)?>::sub$', g): return one(st, msub(D(st, a[0]), D(st, a[1])))
+        if re.search(r'^<&?P3 as std::ops::(Add|Sub)<&?V3>>::(add|sub)$', g): return one(st, (madd if 'Add' in g else msub)(D(st, a[0]), D(st, a[1])))
+        if re.search(r'from_columns$', g):
+            cols = D(st, a[0]).items
+            return one(st, Mat(3, 3, [D(st, cols[j]).d[i] for i in range(3) for j in range(3)]))
+        if re.search(r'^<V3 as std::convert::Into<Tr3>>::into$', g): return one(st, Agg([a[0]], 'Tr3'))
+        if re.search(r'^<Tr3 as std::convert::Into<Tr3>>::into$', g): return one(st, a[0])
+        if re.search(r'<impl UQ>::transform_point$|Rot3::transform_point$', g): return one(st, Mat(3, 1, mmul(D(st, a[0]), D(st, a[1])).d))
+        if re.search(r'<impl P3>::new$|P3::new$|OPoint::<.*>::new$', g): return one(st, Mat(3, 1, a))
+        if re.search(r'^<P3 as std::ops::Deref(Mut)?>::deref(_mut)?$', g): return one(st, a[0])
+        if re.search(r'<impl P3>::origin$', g): return one(st, zero3())
         # --- arithmetic ---
         if re.search(r'^<&?(M3|Rot3|UQ) as std::ops::Mul(<&?(M3|Rot3|UQ)>)?>::mul$', g): return one(st, mmul(D(st, a[0]), D(st, a[1])))
         if re.search(r'^<&?(M3|Rot3|UQ) as std::ops::Mul<&?(V3|UV3)>>::mul$', g): return one(st, Mat(3, 1, mmul(D(st, a[0]), D(st, a[1])).d))
@@ -157,6 +172,20 @@ def install(eng):
             R, B = D(st, a[0]), D(st, a[1]); return one(st, Iso(mmul(R, B.R), mmul(R, B.t)))
         if re.search(r'^<&?Tr3 as std::ops::Mul<&?(UQ|Rot3)>>::mul$', g): return one(st, Iso(D(st, a[1]), D(st, a[0]).items[0]))
         if re.search(r'Iso3::inverse$|na::isometry::<impl Iso3>::inverse$', g): return one(st, iso_inv(D(st, a[0])))
+        if re.search(r'Iso3::(append|prepend)_(translation|rotation)(_wrt_center)?(_mut)?$', g):
+            A = D(st, a[0]); X_ = D(st, a[1]); mm_ = re.search(r'(append|prepend)_(translation|rotation)(_wrt_center)?(_mut)?$', g)
+            if mm_.group(2) == 'translation':
+                tv = X_.items[0]
+                new = Iso(A.R, madd(A.t, tv)) if mm_.group(1) == 'append' else Iso(A.R, madd(A.t, mmul(A.R, tv)))
+            else:
+                if mm_.group(3): new = Iso(mmul(X_, A.R), A.t)
+                else: new = Iso(mmul(X_, A.R), Mat(3, 1, mmul(X_, A.t).d)) if mm_.group(1) == 'append' else Iso(mmul(A.R, X_), A.t)
+            if mm_.group(4):
+                e.write_ref(st, a[0], new); return one(st, UNIT)
+            return one(st, new)
+        if re.search(r'Iso3::inverse_mut$', g):
+            e.write_ref(st, a[0], iso_inv(D(st, a[0]))); return one(st, UNIT)
+        if re.search(r'Iso3::to_homogeneous$|Iso3::to_matrix$', g): raise Inconclusive('homogeneous matrices are not modelled')
         if re.search(r'Iso3::inv_mul$', g): return one(st, iso_mul(iso_inv(D(st, a[0])), D(st, a[1])))
         if re.search(r'(Rot3|UQ)::inverse$|na::quaternion::<impl UQ>::inverse$|na::rotation::<impl Rot3>::inverse$|::transpose$', g): return one(st, transpose(D(st, a[0])))
         if re.search(r'Rot3::transform_vector$|na::quaternion::<impl UQ>::transform_vector$|<impl UQ>::transform_vector$', g): return one(st, Mat(3, 1, mmul(D(st, a[0]), D(st, a[1])).d))
@@ -165,7 +194,9 @@ def install(eng):
         if re.search(r'na::norm::<impl (V3|na::Matrix<.*>)>::norm$', g): return one(st, norm(D(st, a[0])))
         if re.search(r'na::norm::<impl (V3|na::Matrix<.*>)>::norm_squared$', g): return one(st, dot(D(st, a[0]), D(st, a[0])))
         if re.search(r'na::norm::<impl (V3|na::Matrix<.*>)>::normalize$', g):
-            v = D(st, a[0]); n = norm(v); return one(st, Mat(3, 1, [fop('Div', x, n) for x in v.d]))
+            v = D(st, a[0]); n = norm(v)
+            dh = getattr(eng, 'div_hook', None)
+            return one(st, Mat(3, 1, [(F(dh(x.v, n.v), b_or(x.poison(), n.poison(), n.v == 0)) if dh is not None and dh(x.v, n.v) is not None else fop('Div', x, n)) for x in v.d]))
         if re.search(r'::cross$', g): return one(st, cross(D(st, a[0]), D(st, a[1])))
         if re.search(r'::dot$', g): return one(st, dot(D(st, a[0]), D(st, a[1])))
         # --- indexing ---
